@@ -51,8 +51,27 @@ CLAIM = {
              "(ordSorted_string_ok), false of the raw hash order (ordId_not_ok); hence C13_balance_exchange_cmd and "
              "C13_eval_cmd (+ _fine; the heap's pop order is any function of the queue). "
              "Negations are proved for the unsorted printer (F13 before its fix), for maybe_pair alone, and for the "
-             "AND-element of import rewrite rules (F14, still open). NOT proved: anything about format and import as whole "
-             "commands (their statements C13_format / C13_import stay recorded Props), the loader / parser / price-db "
+             "AND-element of import rewrite rules (F14, still open). "
+             "FORMAT and IMPORT as whole command MODELS (Lemmas/C13FormatImport.lean, restated at the end of Props/C13.lean): "
+             "C13_format_cmd - the model of `okane format` (Unparse.format w = parser model + printer model, w the width "
+             "function) is an instance of the recorded statement C13_format for EVERY type of orders: it has no order parameter "
+             "because FormatOptions::format iterates no hash map; C13_format_tree / C13_format_tree_order: the text is a "
+             "function of the parsed tree and is emitted in tree order (concatenation over the entry list). "
+             "C13_import_partial - orders = the iteration orders of the field maps (HashMap<RewriteField,String>) of all "
+             "AND-elements (the hash map whose order reaches the transactions; RulesPerm / reorderRules): Extractor::extract "
+             "(extract_field_order) and hence any importer that builds the transactions of a record from the record and "
+             "extract's verdict return the same list of transactions for every order, on inputs where every element has at most "
+             "one interacting field (one that reads the captured payee or contributes capture groups; from "
+             "C17_and_order_partial); C13_import_csv - for the CSV importer model (csvImport: header resolution, every record, "
+             "conversion, row order; after the rules were compiled) that hypothesis ALWAYS holds when the keys of each field map are "
+             "distinct (every HashMap), so F14 cannot occur in `okane import` of a CSV file (not covered there: which of two "
+             "configuration errors is reported, F32 - Extractor::try_from and FieldMap::try_new over format.fields iterate hash "
+             "maps too, only on the error path); C13_import_camt - the camt.053 importer model "
+             "(camtImport) under the hypothesis (camtImport_field_order_static: e.g. when besides domain codes no element has "
+             "more than one field); C13_import_full_false - the unconditional statement is FALSE (F14: a Viseca/camt element "
+             "with two interacting fields), at the level of the whole extractor. "
+             "NOT proved: the Viseca importer as a whole command (it calls the same extract; import_field_order applies to it), "
+             "the YAML / CSV / XML decoding in front of the importers, the loader / parser / price-db "
              "reader in front of process, re-layouts at a finer grain than one posting inside the relayout model "
              "(the congruence theorems themselves hold per operation), and that the model is the binary. "
              "Whole-command determinism of format, accounts, balance (raw, -X up-to-date / historical, date ranges), register, "
@@ -154,6 +173,15 @@ THEOREMS = [NS + t for t in [
     "C13_eval_cmd_run",
     "accountsScr_wf", "accountsLines_strict", "C13_accounts_text_strict", "sortByKey_keys_strict", "balanceLines_rows",
     "balanceRows_strict", "C13_balance_text_strict",
+    # format / import as whole command models (Lemmas/C13FormatImport.lean, restated at the end of Props/C13.lean)
+    "C13_format_cmd", "C13_format_tree", "C13_format_tree_order", "C13_import_partial", "C13_import_csv",
+    "C13_import_camt", "C13_import_full_false", "exCsvRules_keys",
+]] + ["Okane.C13FI." + t for t in [
+    "format_deterministic", "format_factors", "format_tree_only", "format_ok", "format_err", "formatEntries_append",
+    "formatEntries_cons", "orExtract_field_order", "applyRule_field_order", "extract_field_order", "import_field_order",
+    "import_full_false", "rulesPerm_reorder", "import_deterministic", "csv_inert", "csv_oneInteracting",
+    "csv_extract_field_order", "csvImport_field_order", "csvImport_deterministic", "camt_oneInteracting",
+    "camtImport_field_order", "camtImport_field_order_static",
 ]]
 
 SITES_FILE = os.path.join(VERIF, "corpus", "C13", "iteration_sites.json")
